@@ -17,8 +17,8 @@ CLAIMS = {
   "ref": "DESIGN.md §4 C03"},
  "C20": {
   "technique": "Lean 4 proof (one-step simulation of Terminal::handle_key against a reference editor + invariant, induction over all key sequences, all classifiers) + exhaustive/differential correspondence through hooks on the real Terminal",
-  "text": "Theorems editor_no_panic, cursor_in_bounds, submit_eq_reference (and commands_eq_split for the `;` splitting) hold for every key sequence of any length, every character classifier and every history of non-blank lines. The model of terminal.rs is tied to the Rust code on every run by driving the real handle_key/read_line/get_next_command through cfg(verif) hooks on all key sequences up to length 4 (5 thorough) over a 15-key alphabet from three histories plus random long sequences, comparing buffer, cursor, history index, current line and submitted text after every key, three-way with the reference editor.",
-  "note": "Trusted: Lean kernel; axioms propext, Quot.sound; Unicode classification (is_whitespace/is_alphanumeric) is a parameter of the model supplied by Rust at run time; crossterm key decoding, prompt drawing and history-file I/O are not modelled.",
+  "text": "Theorems editor_no_panic, cursor_in_bounds, submit_eq_reference (and commands_eq_split for the `;` splitting) hold for every key sequence of any length, every character classifier and every history of non-blank lines. The model of terminal.rs is tied to the Rust code on every run by driving the real handle_key/read_line/get_next_command through cfg(verif) hooks on all key sequences up to length 4 (5 thorough) over a 15-key alphabet from three histories plus random long sequences, comparing buffer, cursor, history index, current line and submitted text after every key, three-way with the reference editor. In addition (harness id C20T) ~80 sessions per run are typed into a real `lace debug` on a pseudo-terminal as the byte sequences a terminal sends (UTF-8, DEL, CSI sequences for arrows / Ctrl+arrows / Delete, CR), so crossterm's decoding, term::Key::try_from, raw-mode handling, get_next_command, the command parser and the history file are all in the loop; the `@`-marked echo outputs and the final history file must equal the model's and the reference editor's.",
+  "note": "Trusted: Lean kernel; axioms propext, Quot.sound; Unicode classification (is_whitespace/is_alphanumeric) is a parameter of the model supplied by Rust at run time; crossterm key decoding and history-file I/O are exercised by the terminal sessions but not modelled; prompt drawing is not checked.",
   "ref": "DESIGN.md §4 C20"},
  "C05": {
   "technique": "Lean 4 proof (assembler model never returns a panic outcome, diagnostics point inside the source, every token consumes input; termination = Lean's totality check) + differential correspondence on grammar-derived, mutated and multi-byte texts",
